@@ -1120,6 +1120,7 @@ func (g *gen) mixed(n int) {
 	sg.codecs()
 	sg.hashes()
 	// huge operands
+	specialStart := len(sg.ops)
 	huge := []*big.Int{pow2(1100), neg(pow2(1100)), sub(pow2(1100), small(1)), mul(Q, pow2(900))}
 	for _, h := range huge {
 		sg.add("ff.setbigint %s", h)
@@ -1136,6 +1137,21 @@ func (g *gen) mixed(n int) {
 		sg.add("u.infield %s", h)
 		sg.add("bj.pfsy true %s", h)
 		sg.add("bj.coordsign %s", h)
+	}
+	// negative and out-of-range integers where a field value is expected: nothing passed in may be normalised in place
+	for _, v := range []*big.Int{small(-1), neg(sub(Q, small(1))), neg(refB8.Y), neg(Q), neg(pow2(256)), Q, add(Q, small(5))} {
+		sg.add("bj.pfsy true %s", v)
+		sg.add("bj.pfsy false %s", v)
+		sg.add("bj.incurve %s %s", v, v)
+		sg.add("bj.coordsign %s", v)
+		sg.add("u.infield %s", v)
+		sg.add("poseidon.hashex [%s] 0 1", v)
+		sg.add("poseidon.hashex [1] %s 1", v)
+		sg.add("mimc7.hash [%s] nil", v)
+		sg.add("mimc7.hash [1] %s", v)
+		sg.add("mimc7.mimc7hash %s %s", v, v)
+		sg.add("ff.setbigint %s", v)
+		sg.add("ffg.setbigint %s", v)
 	}
 	pool := sg.ops
 	if g.grouped {
@@ -1188,6 +1204,11 @@ func (g *gen) mixed(n int) {
 	}
 	for _, s := range snap {
 		g.add(s)
+	}
+	// every op with a huge, negative or out-of-range operand is executed once (the random history below samples
+	// them only occasionally)
+	for _, op := range pool[specialStart:] {
+		g.add(op)
 	}
 	var recent []string
 	for i := 0; i < n; i++ {
